@@ -306,7 +306,7 @@ func c08New(c *fw.Case) {
 	// (b) illegal name
 	{
 		bad := clone()
-		illegal := []string{"", "\"quoted\"", "'quoted'", "$x", "$", "\"a b\""}[rng.Intn(6)]
+		illegal := []string{"", "\"quoted\"", "'quoted'", "$x", "$", "\"a b\"", "'it's'", "\"a\"b\"", "'" + "''", "\"say \"hi\"\""}[rng.Intn(10)]
 		bad.data[illegal] = make([]int, rows)
 		if bad.order != nil {
 			bad.order = append(bad.order, illegal)
@@ -631,7 +631,7 @@ func c08Project(c *fw.Case) {
 		}
 		check(fmt.Sprintf("Copy(%q, %q)", "newcol", "no-such-column"), false, nil, func() qframe.QFrame { return root.QF.Copy("newcol", "no-such-column") })
 		check(fmt.Sprintf("Copy(%q, %q)", "no-such-column", "no-such-column"), false, nil, func() qframe.QFrame { return root.QF.Copy("no-such-column", "no-such-column") })
-		illegal := []string{"", "\"q\"", "'q'", "$d"}[rng.Intn(4)]
+		illegal := []string{"", "\"q\"", "'q'", "$d", "'q'q'", "\"\"\""}[rng.Intn(6)]
 		check(fmt.Sprintf("Copy(%q, %q)", illegal, src), false, nil, func() qframe.QFrame { return root.QF.Copy(illegal, src) })
 	}
 	// Slice
